@@ -57,9 +57,15 @@ fn fault_acts(n: usize, len: usize, kind: FpKind, thorough: bool) -> Vec<Act> {
             for a in 0..=len {
                 for b in a..=len {
                     let sel = b - a;
-                    let scripts = scripts_upto(if thorough { sel.min(3) } else { sel.min(2) });
+                    let mut scripts = scripts_upto(if thorough { sel.min(3) } else { sel.min(2) });
+                    scripts.push(vec![Step::N(1)]);
+                    scripts.push(vec![Step::NB(1)]);
                     for s in scripts {
-                        if s.len() < sel {
+                        let mut w = Win { lo: a, hi: b };
+                        for st in &s {
+                            w.step(*st);
+                        }
+                        if w.len() > 0 {
                             o(&mut v, Op::Drain((B::I(a), B::E(b)), s, End::Drop));
                         }
                     }
